@@ -46,7 +46,18 @@ def advance (d : DS) (s' : State) : DS :=
   { d with nextPage := if (s'.pages d.nextPage).isSome then d.nextPage + 1 else d.nextPage,
            nextBig := if (s'.parent d.nextBig).isSome then d.nextBig + 1 else d.nextBig }
 
-def fill (s : State) (p : Ptr) (k n : Nat) : State := (act s (.write p (patBytes k n))).1
+/-- bytes of a block the harness ever touches: huge blocks (served by the `fake` parent without real
+memory) only in a prefix, or not at all (same rule as harness/sba.c `s_touch_of`) -/
+def touchOf (n : Nat) : Nat := if n ≤ 2 ^ 20 then n else if n ≤ 2 ^ 41 then 256 else 0
+
+def fill (s : State) (p : Ptr) (k n : Nat) : State := (act s (.write p (patBytes k (touchOf n)))).1
+
+/-- `realloc` of the model; when both sizes are huge (> 2^20, hence both above the largest bin: the parent moves the
+block) the copied prefix is cut to the 256 bytes the harness ever touches — the model's `readBytes` over 2^32 bytes is not
+executable.  Everything observable is unchanged. -/
+def reallocD (s : State) (p : Ptr) (old new os big : Nat) : State × Option Ptr :=
+  if min old new ≤ 2 ^ 20 then realloc s p old new os big
+  else reallocMove s p 256 new os big
 
 def countWhere (l : List Bool) : Nat := (l.filter id).length
 
@@ -59,7 +70,7 @@ def step (d : DS) (t : List String) : DS × List String :=
     -- obeys the contract stated in props/c03.py ASSUMPTIONS; the run checks the real parents against it.
     let okParent : Bool := match rest with
       | [] => true
-      | [p] => ["hc", "malloc", "default", "aligned", "norealloc", "nocalloc", "bare"].contains p
+      | [p] => ["hc", "malloc", "default", "aligned", "norealloc", "nocalloc", "bare", "fake"].contains p
       | _ => false
     if (m == "mt=0" || m == "mt=1") && okParent then
       let s := init (m == "mt=1")
@@ -80,7 +91,13 @@ def step (d : DS) (t : List String) : DS × List String :=
   | some s, ["calloc", name, num, sz] =>
     match blockNo name, parseSize? num, parseSize? sz with
     | some k, some num, some sz =>
-      if d.tab.any (·.name == name) then bad else
+      if num = 0 ∨ sz = 0 ∨ num ≥ 2 ^ 64 ∨ sz ≥ 2 ^ 64 ∨ d.tab.any (·.name == name) then bad else
+      -- a product that does not fit a size_t: the library refuses (fatal assert), the model's calloc returns nothing
+      if num * sz ≥ 2 ^ 64 then
+        (match calloc s num sz d.nextPage d.nextBig with
+         | (_, none) => (d, ["P calloc refused"])
+         | (_, some _) => (d, ["P calloc accepted"]))
+      else if num * sz > 2 ^ 20 then bad else
       match calloc s num sz d.nextPage d.nextBig with
       | (s1, some p) =>
         let n := num * sz
@@ -93,10 +110,10 @@ def step (d : DS) (t : List String) : DS × List String :=
   | some s, ["realloc", name, old, new] =>
     match d.tab.find? (·.name == name), parseSize? old, parseSize? new with
     | some e, some old, some new =>
-      if old ≠ e.size then bad else
-      match realloc s e.ptr old new d.nextPage d.nextBig with
+      if old ≠ e.size ∨ (old > 2 ^ 41 ∧ new ≠ 0) then bad else
+      match reallocD s e.ptr old new d.nextPage d.nextBig with
       | (s1, some q) =>
-        let keep := min old new
+        let keep := min (touchOf old) (touchOf new)
         let kept := countWhere ((List.range keep).map (fun i => s1.mem (q.at i) == pat e.k i))
         let s2 := fill s1 q e.k new
         let tab := d.tab.map (fun x => if x.name == name then { x with ptr := q, size := new } else x)
